@@ -1024,6 +1024,7 @@ func (c11) Generate(r *rand.Rand, t string) []*Case {
 	// repetition of one value under one render (c11_repeat.go); drawn last, so that the draws
 	// of the older streams are unchanged
 	g.out = append(g.out, c11RepCases(r, t)...)
+	g.out = append(g.out, c11CtxCases(r, t)...) // c11_ctx.go (round 7): type-name-context, int-digits
 	// the property speaks of finite values only: drop cases holding a non-finite one
 	// (complex64 conversions of float64 extremes)
 	var out []*Case
@@ -1067,6 +1068,9 @@ func (c11) Oracle(c *Case, got []hist.Obs) string {
 	lits := c.Meta["lits"].([]c1xLit)
 	if _, rep := c.Meta["rep"]; rep {
 		return c11RepOracle(c, got)
+	}
+	if _, ctx := c.Meta["ctx"]; ctx {
+		return c11CtxOracle(c, got) // c11_ctx.go
 	}
 	vals := make([]interface{}, len(lits))
 	for i, l := range lits {
